@@ -19,7 +19,7 @@ FORMS = {'long': '1,1,1,1,1,1,1,1', 'long0': '2,2,2,2,2,2,2,2', 'indef': '3,3,3,
 for t in ('T_Seq', 'T_Set', 'T_Oct', 'T_SeqX'):
     for fn, ff in FORMS.items():
         HARNESSES.append(typed(H, 'varf_%s_%s_ber' % (t, fn), 'typed/dec_variants.c', t, 'der', defines=['-DFIXED_FORMS=' + ff],
-                               tiers=('quick', 'thorough') if t in ('T_Seq', 'T_Set') else ('thorough',),
+                               tiers=('quick', 'thorough') if (t, fn) in (('T_Seq', 'long0'), ('T_Seq', 'indef'), ('T_Seq', 'mix1'), ('T_Set', 'indef'), ('T_Set', 'mix2')) else ('thorough',),
                                functions=['BER decoder of %s' % t],
                                inputs='value of %s; type-specific alternative symbolic; per-TLV length forms fixed to (%s) [0 minimal, 1 0x81 nn, 2 0x82 00 nn, 3 indefinite]' % (t, ff),
                                bounds='length-form assignment enumerated: %s' % fn))
